@@ -954,4 +954,50 @@ theorem holdAtSpawn_spec (s : State) (n : String) (p : Int) (y : Proxy) (hy : y.
         simp [hc', hgt, hy]
     · simp [hc', hy]
 
+/-- the hold table after spawning `(n, p)`: the instance is entered when it lies beyond the hold point -/
+def holdTableAfterSpawn (s : State) (n : String) (p : Int) : List (String × Int) :=
+  if (!(s.tasksToHold.contains (n, p)) && beyondHold s.holdPoint p) then s.tasksToHold ++ [(n, p)] else s.tasksToHold
+
+theorem spawnTask_none {g : Graph} {s : State} {n : String} {p : Int}
+    (h : (spawnTask g s n p).2 = none) : (spawnTask g s n p).1 = s := by
+  rw [spawnTask_eq] at h ⊢
+  split
+  · rfl
+  · split
+    · rfl
+    · split
+      · rfl
+      · rename_i h1 _ _ _ _ _ _
+        rw [if_neg h1] at h
+        simp_all
+
+/-- **`spawnTask`, hold part**: a newly spawned proxy is held exactly when a hold was requested for the instance
+earlier or the instance lies beyond the hold point; nothing else of the state changes but the hold table entry. -/
+theorem spawnTask_some {g : Graph} {s : State} {n : String} {p : Int} {y : Proxy}
+    (h : (spawnTask g s n p).2 = some y) :
+    y.pt = p ∧ y.name = n ∧ y.held = (s.tasksToHold.contains (n, p) || beyondHold s.holdPoint p) ∧
+    (spawnTask g s n p).1 = { s with tasksToHold := holdTableAfterSpawn s n p } := by
+  rw [spawnTask_eq] at h ⊢
+  split at h
+  · simp at h
+  · rename_i h1
+    rw [if_neg h1]
+    split at h
+    · simp at h
+    · rename_i x hx
+      obtain ⟨hx1, hx2, hx3⟩ := mkProxy_fields hx
+      split at h
+      · simp at h
+      · rename_i y1 hy1
+        obtain ⟨hr1, hr2, hr3⟩ := reviveAtSpawn_fields hy1
+        simp only [Option.some.injEq] at h
+        obtain ⟨hs1, hs2, hs3, hs4⟩ := holdAtSpawn_spec s n p y1 (hr3.trans hx3)
+        obtain ⟨ha1, ha2, ha3⟩ := absAtSpawn_fields g (holdAtSpawn s n p y1).1 n (holdAtSpawn s n p y1).2
+        subst h
+        refine ⟨?_, ?_, ?_, ?_⟩
+        · rw [ha1, hs1, hr1, hx1]
+        · rw [ha2, hs2, hr2, hx2]
+        · rw [ha3, hs3]
+        · exact hs4
+
 end CylcModel.Sched2
